@@ -35,16 +35,16 @@ const (
 )
 
 type Variant struct {
-	Name     string            `json:"name"`
-	Race     bool              `json:"race,omitempty"`
-	Tags     []string          `json:"tags,omitempty"`
-	Cgo      string            `json:"cgo,omitempty"` // "0" disables cgo
-	Gcflags  string            `json:"gcflags,omitempty"`
-	Asan     bool              `json:"asan,omitempty"`
-	Env      map[string]string `json:"env,omitempty"`
-	Tiers    []string          `json:"tiers,omitempty"` // default: both
-	Pkg      string            `json:"pkg,omitempty"`   // override package (e.g. cmd/evm build)
-	BuildOnly bool             `json:"build_only,omitempty"`
+	Name      string            `json:"name"`
+	Race      bool              `json:"race,omitempty"`
+	Tags      []string          `json:"tags,omitempty"`
+	Cgo       string            `json:"cgo,omitempty"` // "0" disables cgo
+	Gcflags   string            `json:"gcflags,omitempty"`
+	Asan      bool              `json:"asan,omitempty"`
+	Env       map[string]string `json:"env,omitempty"`
+	Tiers     []string          `json:"tiers,omitempty"` // default: both
+	Pkg       string            `json:"pkg,omitempty"`   // override package (e.g. cmd/evm build)
+	BuildOnly bool              `json:"build_only,omitempty"`
 }
 
 type Check struct {
